@@ -76,7 +76,7 @@ def case_load(ses, case):
         extra["log"] = it.io_log[n_before:]
         return res
 
-    ok = explore_checked(ses, f"{ses.prop}/load/{tag}", run, hyps, function=fn, timeout_ms=800)
+    ok = explore_checked(ses, f"{ses.prop}/load/{tag}", run, hyps, function=fn, timeout_ms=800, limit_group="load")
     for pi, r in enumerate(ok):
         ex = r.extra
         it, arr, wrapper = ex["it"], ex["arr"], ex["wrapper"]
@@ -110,6 +110,11 @@ def run(ses):
 
     cases = [("IU2", k0, "slice_none") for k0 in KINDS] + ([("C*8", "slice_sym", "slice_sym")] if ses.tier == "thorough" else [])
     run_cases(ses, "props.c19", "case_load", cases)
+    from native import arraycheck as ac
+
+    ses.resolve_engine_limits("load", lambda: ac.check_concurrent_loads(seed=ses.seed),
+                              bound_text="8 threads x 40 loads of overlapping selections of 3 lazily wrapped images and a pickled copy "
+                                         "(sampled schedules of the real threads, not an enumeration)")
     # the lock is held around the backend access only (no second lock below it): call-graph scan of the load path
     fn = "ceos_alos2.xarray.LazilyIndexedWrapper._raw_indexing_method"
     src = inspect.getsource(A)
